@@ -100,9 +100,11 @@ theorem mem_enumRanges (rs : Ranges) (ip : Nat) : ip ∈ enumRanges rs ↔ inRan
       · right; exact h
 
 theorem has_mem_enum {p : Pool} {ip : Nat} (h : p.has ip = true) : ip ∈ enumRanges p.ranges := by
+  -- relies on the regenerated fact `configurePoolMatchesSubnetAndRanges = true` (ConfigurePool attaches an address to
+  -- the pool whose subnet AND ranges contain it)
   unfold Pool.has at h
   rw [mem_enumRanges]
-  simp only [Bool.and_eq_true] at h
+  simp only [Bool.and_eq_true, Generated.Plugin.configurePoolMatchesSubnetAndRanges, Bool.not_true, Bool.or_false] at h
   exact h.2
 
 theorem poolDisjoint_spec {p q : Pool} (h : poolDisjoint p q = true) {ip : Nat} (hp : p.has ip = true) : q.has ip = false := by
